@@ -136,9 +136,12 @@ theorem perm_branches (a : Answered) (i : String) (c : Bool) (as : List RAct) {b
     doneStep a (.mk i c bs as) = doneStep a (.mk i c bs' as) ∧
     (opensStep a (.mk i c bs as)).Perm (opensStep a (.mk i c bs' as)) ∧
     (statesStep a (.mk i c bs as)).Perm (statesStep a (.mk i c bs' as)) := by
-  have hc := anyCondHolds_perm h
+  have hc : stepTaken bs as = stepTaken bs' as := by simp only [stepTaken, anyCondHolds_perm h]
   have hm : ∀ n, n ∈ termIds a bs ↔ n ∈ termIds a bs' := fun n => (termIds_perm a h).mem_iff
-  have hd := doneBranches_perm_aux a (anyCondHolds bs) hm h
+  have hd := doneBranches_perm_aux a (stepTaken bs as) hm h
+  have hsd : stepTakenDone a bs as = stepTakenDone a bs' as := by
+    simp only [stepTakenDone]
+    rw [anyHoldingDone_congr a hm bs, anyHoldingDone_perm a _ h]
   refine ⟨?_, ?_, ?_⟩
   · simp only [doneStep]; rw [← hc, hd]
   · simp only [opensStep]
@@ -153,7 +156,7 @@ theorem perm_branches (a : Answered) (i : String) (c : Bool) (as : List RAct) {b
     | false => exact List.Perm.refl _
     | true =>
       simp only [Bool.not_true, Bool.false_eq_true, ↓reduceIte]
-      rw [← hc, hd, ← anyHoldingDone_congr a hm bs', ← anyHoldingDone_perm a _ h, ← statesBranches_congr a _ _ hm bs']
+      rw [← hc, hd, ← hsd, ← statesBranches_congr a _ _ hm bs']
       exact List.Perm.cons _ (List.Perm.append_right _ (statesBranches_perm_aux a _ _ _ h))
 
 /-- **the else branch runs iff no sibling condition held** -/
@@ -214,7 +217,7 @@ theorem needs_branch_waits (a : Answered) (sc sd : Bool) (tm : List String) (i :
 
 /-- … so in a step, a `needs` branch that is past `pending` names a sibling condition branch that was skipped or has run to its end -/
 theorem needs_started_after_needed (a : Answered) (bs : List RBranch) (i : String) (ns : List String) (ss : List RStep)
-    (h : statesBranch a (anyCondHolds bs) (anyHoldingDone a (termIds a bs) bs) (termIds a bs) (.mk i (.needs ns) ss) ≠ [(i, "pending")]) :
+    (sc sd : Bool) (h : statesBranch a sc sd (termIds a bs) (.mk i (.needs ns) ss) ≠ [(i, "pending")]) :
     ∃ n ∈ ns, ∃ hc ss', RBranch.mk n (.cond hc) ss' ∈ bs ∧ (hc = false ∨ doneSteps a ss' = true) := by
   rw [needs_branch_waits] at h
   cases hr : ns.any ((termIds a bs).contains ·) with
@@ -234,6 +237,12 @@ theorem needs_takes_the_step (i : String) (ns : List String) (ss : List RStep) (
     rcases List.mem_cons.mp h with h | h
     · left; subst h; rfl
     · exact Or.inr (ih h)
+
+/-- **a step with acts beside its branches**: the first act is a sibling of the branches — when it runs (its `if` holds) it takes the
+step and the `else` branch does not run; when it is skipped the branches decide alone -/
+theorem mixed_step_else (bs : List RBranch) (x : RAct) (xs : List RAct) :
+    stepTaken bs (x :: xs) = (anyCondHolds bs || x.cond) ∧ stepTaken bs [] = anyCondHolds bs := by
+  simp [stepTaken, firstActTakes]
 
 /-- **a step starts only after its predecessor is terminal**: while a step of a list is unfinished, nothing of the later
 steps has started and only it can be waiting -/
